@@ -63,7 +63,9 @@ impl SocketSend for ReqSocket {
                 let sent = peer.send_queue.send(Message::Message(message)).await;
                 drop(peer);
                 if let Err(e) = sent {
-                    self.backend.peer_disconnected(&next_peer_id);
+                    // Awaited, not `peer_disconnected`: a task registering another peer may have
+                    // queued for the bucket while the entry was held, and may need this thread.
+                    self.backend.peers.remove_async(&next_peer_id).await;
                     return Err(e.into());
                 }
                 self.current_request = Some(next_peer_id);
@@ -85,8 +87,8 @@ impl SocketRecv for ReqSocket {
                     drop(peer);
                     self.current_request = None;
                     if !matches!(received, Some(Ok(_))) {
-                        // The connection ended or failed: forget the peer
-                        self.backend.peer_disconnected(&peer_id);
+                        // The connection ended or failed: forget the peer (awaited, see `send`)
+                        self.backend.peers.remove_async(&peer_id).await;
                     }
                     match received {
                         Some(Ok(Message::Message(mut m))) => {
